@@ -229,7 +229,15 @@ fn norm(r: &Real) -> Result<BTreeSet<String>, String> {
 /// multi-byte characters at every alignment (a message in the operator's language, a quoted object)
 pub fn long_message(r: &mut crate::util::Prng, short: &str) -> String {
     if r.chance(2, 3) {
-        return short.to_string();
+        // texts real servers produce for one-off conditions: none of them says anything about
+        // the next query
+        return match r.below(6) {
+            0 => "unrecognized command".to_string(),
+            1 => "Unrecognised command: 6".to_string(),
+            2 => "query timeout".to_string(),
+            3 => "Access denied: query rate limit exceeded".to_string(),
+            _ => short.to_string(),
+        };
     }
     let mut s = "x".repeat(r.below(4));
     let unit = *r.pick(&["\u{e9}", "\u{df}\u{20ac}", "\u{65e5}\u{672c}\u{8a9e}", "\u{1f600}", "a\u{e9}"]);
